@@ -359,6 +359,12 @@ impl<K: Eq + Copy, V: Copy> SmallMap<K, V> {
 
 /// Stand-in for `parking_lot::Mutex<T>` in sequential harnesses: a cell; locking a locked mutex
 /// (self-deadlock in the real code) fails the harness.
+static mut MUTEXES_HELD: u32 = 0;
+/// how many model mutexes are held right now (sequential harnesses observe lock structure with it)
+pub(crate) fn mutexes_held() -> u32 {
+	unsafe { MUTEXES_HELD }
+}
+
 pub(crate) struct Mutex<T> {
 	locked: core::cell::Cell<bool>,
 	v: core::cell::UnsafeCell<T>,
@@ -377,6 +383,9 @@ impl<T> Mutex<T> {
 	pub fn lock(&self) -> MutexGuard<'_, T> {
 		assert!(!self.locked.get(), "verif model: mutex locked twice (self-deadlock)");
 		self.locked.set(true);
+		unsafe {
+			MUTEXES_HELD += 1;
+		}
 		MutexGuard { m: self }
 	}
 	pub fn is_locked(&self) -> bool {
@@ -398,6 +407,9 @@ impl<'a, T> core::ops::DerefMut for MutexGuard<'a, T> {
 impl<'a, T> Drop for MutexGuard<'a, T> {
 	fn drop(&mut self) {
 		self.m.locked.set(false);
+		unsafe {
+			MUTEXES_HELD -= 1;
+		}
 	}
 }
 
@@ -513,5 +525,93 @@ impl Semaphore {
 impl<'a> Drop for SemaphorePermit<'a> {
 	fn drop(&mut self) {
 		self.s.permits.set(self.s.permits.get() + 1);
+	}
+}
+
+// ---------------------------------------------------------------------------------------------
+/// Stand-ins used ONLY by the synchronous whole-commit() slice (`commit_sync_file`):
+/// * `merr`: an error enum with the variants commit()/oracle use and no payload that needs drop glue
+///   (the real `Error` carries `Arc<io::Error>` and Strings: its drop glue for every dropped
+///   `Result<_, Error>` is what made the full commit() run out of memory);
+/// * `MBatch`: a batch of at most 2 one-byte keys (the pipeline only reads keys, count, emptiness and
+///   stamps the starting sequence number).
+pub(crate) mod merr {
+	#[derive(Debug, Clone, Copy, PartialEq, Eq)]
+	pub(crate) enum Error {
+		PipelineStall,
+		TransactionWriteConflict,
+		TransactionRetry,
+		CommitFail(()),
+		/// injected by the harness's CommitEnv (WAL write / memtable apply / background error)
+		Injected(u8),
+	}
+	pub(crate) type Result<T> = core::result::Result<T, Error>;
+}
+
+#[derive(Clone, Copy)]
+pub(crate) struct MKey(pub [u8; 1]);
+impl MKey {
+	pub fn as_slice(&self) -> &[u8] {
+		&self.0
+	}
+}
+#[derive(Clone, Copy)]
+pub(crate) struct MEntry {
+	pub key: MKey,
+}
+#[derive(Clone, Copy)]
+pub(crate) struct MEntries {
+	pub items: [MEntry; 2],
+	pub len: usize,
+}
+impl MEntries {
+	pub fn iter(&self) -> core::slice::Iter<'_, MEntry> {
+		self.items[..self.len].iter()
+	}
+}
+#[derive(Clone, Copy)]
+pub(crate) struct MBatch {
+	pub entries: MEntries,
+	pub starting_seq_num: u64,
+}
+impl MBatch {
+	pub fn new2(k0: u8, k1: u8, len: usize) -> Self {
+		MBatch { entries: MEntries { items: [MEntry { key: MKey([k0]) }, MEntry { key: MKey([k1]) }], len }, starting_seq_num: 0 }
+	}
+	pub fn count(&self) -> u32 {
+		self.entries.len as u32
+	}
+	pub fn is_empty(&self) -> bool {
+		self.entries.len == 0
+	}
+	pub fn set_starting_seq_num(&mut self, s: u64) {
+		self.starting_seq_num = s;
+	}
+}
+
+impl oneshot::Receiver<merr::Result<()>> {
+	/// synchronous stand-in for `complete_rx.await`: Ok(result) once the completion fired,
+	/// Err(RecvError) if it has not (a sequential harness cannot wait for another committer).
+	pub(crate) fn take_now(self) -> core::result::Result<merr::Result<()>, oneshot::error::RecvError> {
+		let r = if self.slot.sends.get() == 0 {
+			Err(oneshot::error::RecvError(()))
+		} else if self.slot.ok.get() {
+			Ok(Ok(()))
+		} else {
+			Ok(Err(merr::Error::CommitFail(())))
+		};
+		core::mem::forget(self);
+		r
+	}
+}
+
+impl Semaphore {
+	/// synchronous stand-in for `acquire().await`
+	pub(crate) fn acquire_now(&self) -> core::result::Result<SemaphorePermit<'_>, AcquireError> {
+		if self.permits.get() == 0 {
+			return Err(AcquireError(()));
+		}
+		self.permits.set(self.permits.get() - 1);
+		Ok(SemaphorePermit { s: self })
 	}
 }
